@@ -1420,6 +1420,28 @@ func c19LenSSA(r *Run) {
 						}
 					}
 				case *ssa.Extract:
+					// _, ok := set[Kind(v)] for a constant map used as a set of kinds
+					if lk, isLk := x.Tuple.(*ssa.Lookup); isLk && lk.CommaOk && x.Index == 1 {
+						ld, isLd := p.resolve(lk.X).(*ssa.UnOp)
+						if !isLd {
+							return false, false
+						}
+						g, isG := ld.X.(*ssa.Global)
+						if !isG || g.Pkg == nil {
+							return false, false
+						}
+						t := constTablesOf(g.Pkg)[g]
+						recv, _, isKind := reflectValueCall(p.resolve(lk.Index), "Kind")
+						if t == nil || t.isArray || !isKind {
+							return false, false
+						}
+						kk := lenKindOf(p, recv, param, c)
+						if kk < 0 {
+							return false, false
+						}
+						_, found := t.lookup(constant.MakeInt64(int64(kk)))
+						return found, true
+					}
 					if ta, isTA := x.Tuple.(*ssa.TypeAssert); isTA && x.Index == 1 && p.resolve(ta.X) == param {
 						if isBasicKind(ta.AssertedType, types.String) && !isNamed(ta.AssertedType) {
 							return c.str, true
